@@ -160,6 +160,14 @@ def build_env(cls: dict):
         return TimeLimit(SimMDP("discrete", (3,), "box", dummy_tables(5, "discrete", (3,))), 5)
     if e == "sim_box":
         return TimeLimit(SimMDP("box", (2,), "box", dummy_tables(5, "box", (2,))), 5)
+    if e == "gym_peer":
+        from lerax.compatibility.gym import GymToLeraxEnv
+
+        from .peers import SimGymEnv
+
+        peer = SimGymEnv(6, 3)
+        peer.load(dummy_tables(5, "discrete", (3,)), 4)
+        return GymToLeraxEnv(peer)
     if e == "cartpole":
         from lerax.env.classic_control import CartPole
 
@@ -246,11 +254,11 @@ class Runner:
             "ops": ["baseline", "repeat", "other_key", "observed"],
             "faults": [],
         }
-        if cls["env"].startswith("sim"):
-            kind = "discrete" if cls["env"] == "sim_discrete" else "box"
+        if cls["env"].startswith("sim") or cls["env"] == "gym_peer":
+            kind = "box" if cls["env"] == "sim_box" else "discrete"
             dims = (3,) if kind == "discrete" else (2,)
-            plan["world"] = gen_tables(rng, S=5, kind=kind, dims=dims)
-            plan["time_limit"] = rng.choice([2, 3, 5, 1000])
+            plan["world"] = gen_tables(rng, S=5, kind=kind, dims=dims, bias={"single_init": False, "p_stochastic": 0.0} if cls["env"] == "gym_peer" else None)
+            plan["time_limit"] = rng.choice([2, 3, 5, 1000]) if cls["env"] != "gym_peer" else rng.choice([2, 3, 5])
         if cls["observer"] == "video":
             plan["faults"].append({"kind": "video_schedule", "mode": rng.choice(["early", "late:1", "late:2", "late:3", "at_close", "never"])})
         if cls["observer"] in ("rec1", "rec2") and rng.random() < 0.2:
@@ -274,6 +282,10 @@ class Runner:
     # ------------------------------------------------------------------ execution
 
     def _env_for(self, plan):
+        if self.cls["env"] == "gym_peer":
+            # the peer is a Python object with hidden state behind the adapter; its tables are (re)loaded per run
+            self.env0.env.load(plan["world"], int(plan["time_limit"]))
+            return self.env0
         if "world" not in plan:
             return self.env0
         inner = with_tables(self.env0.unwrapped, plan["world"])
